@@ -210,7 +210,7 @@ func runC05(c *Ctx) {
 	base := filepath.Join(c.WorkDir, "c05")
 	type cs struct {
 		stream string
-		kind   string // stream order: which rule of the checker the journal breaks (or "valid…")
+		kind   string // stream order: which rule of the checker the journal breaks (or "valid…"); stream prices: the shape of the price graph
 		idx    int
 		j      *Journal
 		f      BalFlags
@@ -221,11 +221,13 @@ func runC05(c *Ctx) {
 	var cases []*cs
 	// stream `layout`: journals of the lifecycle generator (mostly valid). Stream `order`: journals whose verdict hangs on
 	// state that several same-day transactions build up before a directive of a LATER day breaks a rule of the checker
-	// (c05GenOrder); rejected in every directive order and every layout.
+	// (c05GenOrder); rejected in every directive order and every layout. Stream `prices`: valued reports over price graphs in
+	// which a commodity is reached from the valuation commodity over SEVERAL chains of equal length with different products
+	// (c05GenPrices); which chain counts must not depend on where the commodities involved are mentioned first.
 	streams := []struct {
 		name    string
 		n, nvar int
-	}{{"layout", c.N(500, 4000), c.N(5, 10)}, {"order", c.N(200, 2500), c.N(6, 10)}}
+	}{{"layout", c.N(500, 4000), c.N(5, 10)}, {"order", c.N(200, 2500), c.N(6, 10)}, {"prices", c.N(120, 2500), c.N(6, 10)}}
 	for _, st := range streams {
 		stream, nvar := st.name, st.nvar
 		for i := 0; i < st.n; i++ {
@@ -242,6 +244,21 @@ func runC05(c *Ctx) {
 				f = GenBalFlags(r, j, "", BalGenOpts{})
 				if r.Chance(1, 2) {
 					f.To = 0
+				}
+			} else if stream == "prices" {
+				var val string
+				j, kind, val, tags = c05GenPrices(r)
+				if r.Bool() {
+					// a plain valued report: nothing filtered, nothing mapped, so that every position shows with its value
+					f = BalFlags{Val: val, Interval: Pick(r, []int{0, 1, 2, 3, 3, 4}), Diff: r.Chance(1, 4), NoClose: r.Chance(1, 3), CSV: r.Chance(1, 3)}
+					if !f.CSV {
+						f.Digits = Pick(r, []int{0, 2, 4, 8})
+					}
+				} else {
+					f = GenBalFlags(r, j, val, BalGenOpts{Valued: true})
+					if r.Chance(1, 2) {
+						f.To = 0
+					}
 				}
 			} else {
 				o := JGenOpts{MaxAccounts: r.Range(2, 6), MaxDays: r.Range(1, 5), Unicode: true, BaseDay: 737000 + r.Intn(1500), SpanDays: Pick(r, []int{0, 3, 30, 200}), BoundaryDates: r.Chance(1, 4),
@@ -300,6 +317,12 @@ func runC05(c *Ctx) {
 					})
 				case v == 3 && stream == "order": // the file stays chronological, only the transactions of each day change places
 					order = c05SameDayShuffle(r, j)
+				case v == 3 && stream == "prices": // the smallest change of order: one directive moves to the top of the file
+					q := r.Intn(len(order))
+					copy(order[1:q+1], order[:q])
+					order[0] = q
+				case v == 4 && stream == "prices": // the file stays chronological, only the price directives of each day change places
+					order = c05SameDayShuffleKind(r, j, 'p')
 				default:
 					for q := len(order) - 1; q > 0; q-- {
 						w := r.Intn(q + 1)
@@ -311,7 +334,7 @@ func runC05(c *Ctx) {
 				// the byte layout of the variant's files has a generator of its own (the directive orders and tree shapes of a
 				// case do not move when the layout tables change); the original, variant 0, keeps the printed layout
 				lr := c.Rng(stream+"/bytes", i*64+v)
-				if (v <= 2 && (v == 0 || r.Chance(1, 2))) || (v == 3 && stream == "order") {
+				if (v <= 2 && (v == 0 || r.Chance(1, 2))) || (v == 3 && stream == "order") || ((v == 3 || v == 4) && stream == "prices") {
 					jj := &Journal{}
 					for _, q := range order {
 						jj.Dirs = append(jj.Dirs, j.Dirs[q])
@@ -420,7 +443,10 @@ func runC05(c *Ctx) {
 			c.Class(fmt.Sprintf("c05/check%d/%s/shapes%d/n%s", b0.Check, flagClass(k.f), len(shapes), bucket(len(k.j.Dirs))))
 		} else {
 			c.Class(fmt.Sprintf("c05/%s/%s/check%d/shapes%d/n%s", k.stream, k.kind, b0.Check, len(shapes), bucket(len(k.j.Dirs))))
-			c.Tag(fmt.Sprintf("order-verdict:%s/exit%d", k.kind, b0.Check))
+			c.Tag(fmt.Sprintf("%s-verdict:%s/exit%d", k.stream, k.kind, b0.Check))
+			if k.stream == "prices" {
+				c.Tag(fmt.Sprintf("prices-balance:%s/exit%d", k.kind, b0.BalC))
+			}
 		}
 		if k.idx < 2 {
 			c.Sample(map[string]any{"journal": text, "args": strings.Join(k.f.Args(), " "), "variants": len(k.vars)})
@@ -439,7 +465,7 @@ func runC05(c *Ctx) {
 		}
 		for vi, vr := range k.vars[1:] {
 			in := map[string]any{"journal": text, "args": strings.Join(k.f.Args(), " "), "variant": vi + 1, "order": vr.Order, "shape": vr.Shape, "layout": vr.Layout, "schedule_seed": vr.Seed}
-			if k.stream == "order" {
+			if k.stream != "layout" {
 				in["kind"] = k.kind
 				in["variant_directives_in_order"] = c05Permuted(k.j, vr.Order)
 			}
@@ -456,7 +482,7 @@ func runC05(c *Ctx) {
 				c.Monitor(k.stream, k.idx, "print_same_up_to_block_order", in, c05CanonPrint(vr.Print) == c05CanonPrint(b0.Print), "original:\n"+b0.Print+"\nvariant:\n"+vr.Print)
 			}
 			// the model on the permuted directive list gives the same report as the real code on the variant
-			if vi < 2 {
+			if vi < 2 || (k.stream == "prices" && vi < 5) {
 				pj := &Journal{}
 				for _, q := range vr.Order {
 					pj.Dirs = append(pj.Dirs, k.j.Dirs[q])
@@ -535,13 +561,16 @@ func c05Permuted(j *Journal, order []int) string {
 
 // c05SameDayShuffle keeps every directive where it is, except that the transactions of each day are dealt out anew
 // over the places the transactions of that day hold.
-func c05SameDayShuffle(r *RNG, j *Journal) []int {
+func c05SameDayShuffle(r *RNG, j *Journal) []int { return c05SameDayShuffleKind(r, j, 't') }
+
+// c05SameDayShuffleKind: the same for the directives of the given kind.
+func c05SameDayShuffleKind(r *RNG, j *Journal, kind byte) []int {
 	order := make([]int, len(j.Dirs))
 	byDay := map[int][]int{}
 	var days []int
 	for q, d := range j.Dirs {
 		order[q] = q
-		if d.Kind == 't' {
+		if d.Kind == kind {
 			if byDay[d.Date] == nil {
 				days = append(days, d.Date)
 			}
@@ -853,4 +882,311 @@ func c05GenOrder(r *RNG) (*Journal, string, []string) {
 		j.Dirs[i].Balances = []JBal{bal}
 	}
 	return j, kind, []string{"order:" + kind}
+}
+
+// c05GenPrices builds a journal for a VALUED report whose price graph offers a choice: a commodity is reached from the
+// valuation commodity over two or more chains of price directives of EQUAL length whose products differ (a diamond: VT quoted
+// in USD and in EUR, both quoted in CHF), so that the value of a position hangs on which chain the normalisation takes. That
+// choice may depend on the names and on the prices, never on where in the journal (which directive, which file, which arrival
+// order) the commodities involved are mentioned first, nor on the order of the price directives of a day. No commodity pair is
+// priced twice on one day (in either direction; C05 excludes that).
+// Shapes: diamond, wide diamond (3-4 intermediate commodities), long diamond (2-3 chains of 2-3 intermediates), stacked
+// diamonds, a ring of 4-7 commodities through the valuation commodity, a layered graph (2-3 layers of 1-3 commodities, each
+// quoted in a random non-empty part of the layer before, sometimes within its layer or two layers up), and two controls (a
+// diamond with a direct quote, a tree). Sometimes a pendant commodity behind the choice and a chord. Every quote in a random
+// direction; the quotes on one day or spread over 1-6 days (the choice appears, or disappears, when a later day completes a
+// chain); a fifth of the pairs re-quoted on another day. The valuation commodity is any of the names (first, last or in the
+// middle of the name order). Mentions: most commodities are held (booked after they became reachable; one in ten anywhere,
+// which may fail — in every order alike), 0-3 later-dated transactions and 0-2 assertions name further commodities, so that
+// in the directive orders and layouts of the variants the first mention of a commodity is a price, a transaction, an
+// assertion, early or late in the file, in this file or that.
+var c05PriceShapes = []string{"diamond", "diamond", "wide-diamond", "long-diamond", "stacked-diamonds", "ring", "layered", "layered", "diamond+direct", "tree"}
+
+func c05GenPrices(r *RNG) (*Journal, string, string, []string) {
+	shape := Pick(r, c05PriceShapes)
+	pool := []string{"AAPL", "BTC", "CHF", "EUR", "GBP", "GOLD", "JPY", "USD", "VT", "XAU", "ZAR", "abc", "MSCI", "N225"}
+	if r.Chance(1, 6) {
+		pool = append(pool, "Ünit")
+	}
+	for a := len(pool) - 1; a > 0; a-- {
+		w := r.Intn(a + 1)
+		pool[a], pool[w] = pool[w], pool[a]
+	}
+	var nodes []string
+	fresh := func() string {
+		s := fmt.Sprintf("C%d", len(nodes))
+		if len(nodes) < len(pool) {
+			s = pool[len(nodes)]
+		}
+		nodes = append(nodes, s)
+		return s
+	}
+	val := fresh()
+	var edges [][2]string
+	has := map[[2]string]bool{}
+	add := func(a, b string) {
+		k := [2]string{a, b}
+		if a > b {
+			k = [2]string{b, a}
+		}
+		if a == b || has[k] {
+			return
+		}
+		has[k] = true
+		edges = append(edges, [2]string{a, b})
+	}
+	diamond := func(from string, width, length int) string {
+		to := fresh()
+		for w := 0; w < width; w++ {
+			prev := from
+			for l := 0; l < length; l++ {
+				x := fresh()
+				add(prev, x)
+				prev = x
+			}
+			add(prev, to)
+		}
+		return to
+	}
+	switch shape {
+	case "diamond":
+		diamond(val, 2, 1)
+	case "wide-diamond":
+		diamond(val, r.Range(3, 4), 1)
+	case "long-diamond":
+		diamond(val, r.Range(2, 3), r.Range(2, 3))
+	case "stacked-diamonds":
+		diamond(diamond(val, 2, 1), r.Range(2, 3), 1)
+	case "diamond+direct":
+		add(val, diamond(val, r.Range(2, 3), r.Range(1, 2)))
+	case "ring":
+		prev := val
+		for n := r.Range(3, 6); n > 0; n-- {
+			x := fresh()
+			add(prev, x)
+			prev = x
+		}
+		add(prev, val)
+	case "layered":
+		layers := [][]string{{val}}
+		for l, nl := 1, r.Range(2, 3); l <= nl; l++ {
+			var layer []string
+			for w := r.Range(1, 3); w > 0; w-- {
+				x := fresh()
+				layer = append(layer, x)
+				above := layers[l-1]
+				add(Pick(r, above), x)
+				for _, p := range above {
+					if r.Bool() {
+						add(p, x)
+					}
+				}
+				if l >= 2 && r.Chance(1, 4) {
+					add(Pick(r, layers[l-2]), x)
+				}
+			}
+			if len(layer) > 1 && r.Chance(1, 3) {
+				add(layer[0], layer[1])
+			}
+			layers = append(layers, layer)
+		}
+	default: // tree
+		for n := r.Range(2, 5); n > 0; n-- {
+			add(Pick(r, nodes), fresh())
+		}
+	}
+	if r.Bool() { // a commodity behind the choice
+		add(Pick(r, nodes[1:]), fresh())
+	}
+	if r.Chance(1, 4) { // a chord
+		add(Pick(r, nodes), Pick(r, nodes))
+	}
+	// the quotes
+	j := &Journal{}
+	d0 := 737000 + r.Intn(1500)
+	oneDay := r.Chance(1, 3)
+	quote := func() string {
+		switch r.Intn(5) {
+		case 0:
+			return fmt.Sprintf("%d", r.Range(1, 12))
+		case 1:
+			return fmt.Sprintf("0.%d", r.Range(1, 9))
+		}
+		return fmt.Sprintf("%d.%02d", r.Range(0, 300), r.Range(1, 99))
+	}
+	last := d0
+	type dated struct {
+		day  int
+		a, b string
+	}
+	var quotes []dated
+	declare := func(day int, a, b string) {
+		if r.Bool() {
+			a, b = b, a
+		}
+		j.Dirs = append(j.Dirs, JDir{Kind: 'p', Date: day, Com: a, Price: quote(), Target: b})
+		quotes = append(quotes, dated{day, a, b})
+		if day > last {
+			last = day
+		}
+	}
+	for _, e := range edges {
+		day := d0
+		if !oneDay && r.Chance(1, 3) {
+			day += r.Range(1, 5)
+		}
+		declare(day, e[0], e[1])
+		if r.Chance(1, 5) {
+			declare(day+r.Range(1, 6), e[0], e[1])
+		}
+	}
+	// the first day on which a commodity has a price in the valuation commodity, and how many shortest chains lead to it
+	// in the graph of all quotes
+	sort.SliceStable(quotes, func(a, b int) bool { return quotes[a].day < quotes[b].day })
+	reach := map[string]int{val: d0}
+	chains := map[string]int{}
+	for qi, q := range quotes {
+		if qi+1 < len(quotes) && quotes[qi+1].day == q.day {
+			continue
+		}
+		adj := map[string][]string{}
+		for _, p := range quotes[:qi+1] {
+			adj[p.a] = append(adj[p.a], p.b)
+			adj[p.b] = append(adj[p.b], p.a)
+		}
+		dist := map[string]int{val: 0}
+		chains = map[string]int{val: 1}
+		for queue := []string{val}; len(queue) > 0; queue = queue[1:] {
+			x := queue[0]
+			seen := map[string]bool{}
+			for _, y := range adj[x] {
+				if seen[y] {
+					continue
+				}
+				seen[y] = true
+				if _, ok := dist[y]; !ok {
+					dist[y] = dist[x] + 1
+					queue = append(queue, y)
+				}
+				if dist[y] == dist[x]+1 {
+					chains[y] += chains[x]
+				}
+			}
+		}
+		for x := range dist {
+			if _, ok := reach[x]; !ok {
+				reach[x] = q.day
+			}
+		}
+	}
+	// accounts and bookings
+	segs := []string{"Bank", "Broker", "Cash", "Depot", "A", "B"}
+	assets := []string{"Assets:" + Pick(r, segs)}
+	for n := r.Range(0, 2); n > 0; n-- {
+		if a := "Assets:" + Pick(r, segs); !contains(assets, a) {
+			assets = append(assets, a)
+		}
+	}
+	sources := []string{"Equity:Opening"}
+	if r.Bool() {
+		sources = append(sources, "Income:Salary")
+	}
+	accounts := append(append([]string{}, assets...), sources...)
+	if r.Bool() {
+		accounts = append(accounts, "Expenses:Food")
+	}
+	dOpen := d0 - r.Range(0, 3)
+	for _, a := range accounts {
+		j.Dirs = append(j.Dirs, JDir{Kind: 'o', Date: dOpen, Account: a})
+	}
+	qty := func() string {
+		switch r.Intn(4) {
+		case 0:
+			return fmt.Sprintf("%d.%02d", r.Intn(300), r.Range(1, 99))
+		case 1:
+			return fmt.Sprintf("-%d", r.Range(1, 50))
+		}
+		return fmt.Sprintf("%d", r.Range(1, 900))
+	}
+	descs := []string{"Transfer portfolio", "Salary", "Bonus", "buy", "x", ""}
+	held, heldChoice := 0, 0
+	for pass := 0; held == 0 && pass < 4; pass++ {
+		for _, x := range nodes[1:] {
+			day, ok := reach[x]
+			if !ok || !r.Chance(3, 4) {
+				continue
+			}
+			day += Pick(r, []int{0, 0, 1, 2, 6})
+			if r.Chance(1, 10) {
+				day = dOpen + r.Intn(last-dOpen+2)
+			}
+			j.Dirs = append(j.Dirs, JDir{Kind: 't', Date: day, Desc: Pick(r, descs), Bookings: []JBook{{Pick(r, sources), Pick(r, assets), qty(), x}}})
+			held++
+			if chains[x] > 1 {
+				heldChoice++
+			}
+		}
+	}
+	// later-dated bookings and assertions that name commodities (in another directive order they are their first mention)
+	var priced []string
+	for _, x := range nodes {
+		if _, ok := reach[x]; ok {
+			priced = append(priced, x)
+		}
+	}
+	for n := r.Intn(4); n > 0; n-- {
+		b := JBook{Pick(r, sources), Pick(r, assets), qty(), Pick(r, priced)}
+		if r.Chance(1, 3) && contains(accounts, "Expenses:Food") {
+			b = JBook{Pick(r, assets), "Expenses:Food", qty(), Pick(r, priced)}
+		}
+		j.Dirs = append(j.Dirs, JDir{Kind: 't', Date: last + r.Range(1, 60), Desc: Pick(r, descs), Bookings: []JBook{b}})
+	}
+	for n := Pick(r, []int{0, 0, 1, 2}); n > 0; n-- {
+		j.Dirs = append(j.Dirs, JDir{Kind: 'a', Date: last + r.Range(0, 70), Balances: []JBal{{Pick(r, assets), "?", Pick(r, priced)}}})
+	}
+	c05FillAssertions(j)
+	// the original: a chronological file, the directives of a day in no particular order
+	for a := len(j.Dirs) - 1; a > 0; a-- {
+		w := r.Intn(a + 1)
+		j.Dirs[a], j.Dirs[w] = j.Dirs[w], j.Dirs[a]
+	}
+	sort.SliceStable(j.Dirs, func(a, b int) bool { return j.Dirs[a].Date < j.Dirs[b].Date })
+	choice := "no-choice"
+	for _, n := range chains {
+		if n > 1 {
+			choice = "choice"
+		}
+	}
+	if heldChoice > 0 {
+		choice = "choice-held"
+	}
+	return j, shape, val, []string{"prices:" + shape, "prices:" + choice}
+}
+
+// c05FillAssertions replaces the quantity "?" of single-balance assertions by the position the account holds at the end of the
+// assertion's day.
+func c05FillAssertions(j *Journal) {
+	for i, d := range j.Dirs {
+		if d.Kind != 'a' || d.Balances[0].Qty != "?" {
+			continue
+		}
+		bal := d.Balances[0]
+		var sum decimal.Decimal
+		for _, t := range j.Dirs {
+			if t.Kind != 't' || t.Date > d.Date {
+				continue
+			}
+			for _, b := range t.Bookings {
+				q, _ := decimal.NewFromString(b.Qty)
+				if b.Com == bal.Com && b.Credit == bal.Account {
+					sum = sum.Sub(q)
+				}
+				if b.Com == bal.Com && b.Debit == bal.Account {
+					sum = sum.Add(q)
+				}
+			}
+		}
+		bal.Qty = sum.String()
+		j.Dirs[i].Balances = []JBal{bal}
+	}
 }
